@@ -32,8 +32,18 @@ CHECKS = {
   text="2-4 cooperative client tasks share 1-2 Map/Set collections inside one real Runtime; a seeded scheduler decides which client steps next between top-level steps, inside every forEach callback, inside generator-based iteration clients suspended in VM frames and inside Go-side ForOf; callbacks may throw (injected). Every recorded step is applied to the specification's tombstone-list reference model in schedule order and each result, each iterator visit and size compared. Key pool of 33 SameValueZero classes / ~115 representations drawn per run.",
   note="Concurrency is cooperative task interleaving (the only kind one Runtime has); correctness reduces to equality with the sequential model in schedule order. The symbol-keyed property table of ordinary objects is not exercised.",
   technique=TECH+": seeded cooperative-task scheduler over shared collections with injected callback failures; operation-by-operation refinement against an executable reference model"),
+"C16": dict(engine="racesim", ref="DESIGN.md 5.4, 3.4",
+  text="2-16 real goroutines, each with its own Runtime, run ONE compiled Program (generated, biased to constructs that embed mutable-looking objects: regex literals of both engines, tagged templates, private names, static blocks, eval/with/arguments functions, generators, rendered error stacks) and operate on shared primitive Values (lazily scanned imported Go strings, concatenations, UTF-16 strings, symbols, BigInts, numbers). Exactly one goroutine runs at a time; which one and for how many VM instructions is drawn from the tape; hand-off by raw pipe syscalls adds no happens-before edge, so the race detector (binary built with -race) judges goja's own synchronisation only. Oracles: no race report or Go fatal error; each goroutine's output equals that of the same script run alone on a fresh runtime with a separately compiled program and separately built values; an Object of another runtime is rejected with TypeError.",
+  note="Interleaving granularity is the VM instruction. The race detector's per-word history is bounded: a clean batch is evidence, not proof. Values are published to goroutines by the go statement (creation edge).",
+  technique=TECH+": seeded goroutine scheduler at VM-instruction granularity with happens-before-transparent hand-off under the race detector; isolated-run differential oracle"),
+"C17": dict(engine="bufsim", ref="DESIGN.md 5.5",
+  text="The simulated party is the Go host that owns the memory: ArrayBuffers are Go []byte inside guard-paged mmap slabs (PROT_NONE either side, page revoked on Detach) with canaries; a seeded fault schedule makes the host detach the buffer, detach a different buffer the operation reads next, overwrite bytes from Go, or return shorter/detached/retyped/aliased species results - inside valueOf/comparator/callback/species hooks that goja calls mid-operation. 31 operation kinds over all 11 element types and DataView. Oracles: any stray access faults (SetPanicOnFault) or corrupts a canary; fault-free steps are compared byte for byte and result for result with an ECMA-262 byte model and across aliasing views; after an injected fault the oracle is relaxed narrowly to 'throws TypeError/RangeError or completes, touching nothing outside what the fault-free step writes'.",
+  note="The value clause (NumericToRawBytes for every value) is checked on the values the workloads write (boundary classes), not swept exhaustively. ArrayBuffer.prototype.slice on a detached buffer, Export() of a detached view, argument coercion order of fill and content-type errors with empty sources are deliberately not asserted (see DESIGN.md).",
+  technique=TECH+": seeded host faults (detach/retarget/Go-side write/species results) injected inside callbacks of running typed-array operations over guard-paged Go memory; byte-array reference model with a narrowly relaxed oracle after faults"),
 }
 ENGINES = [
+ dict(name="racesim", path="sim/engines/racesim.go", serves_properties=["C16"], kind_free_text="seeded scheduler of real goroutines (one Runtime each) at VM-instruction granularity with HB-transparent batons, race build"),
+ dict(name="bufsim", path="sim/engines/bufsim.go", serves_properties=["C17"], kind_free_text="simulated memory-owning host: guard-paged slabs, detach/write/species faults inside callbacks, byte model"),
  dict(name="faultsim", path="sim/engines/faultsim.go", serves_properties=["C03","C15"], kind_free_text="simulated embedding host (native callbacks, re-entry, watchdog goroutines, depth limits) around one real Runtime; seeded fault schedule; counterfactual/twin, prefix and idle-invariant oracles"),
  dict(name="mapsim", path="sim/engines/mapsim.go", serves_properties=["C18"], kind_free_text="seeded cooperative scheduler of client tasks over shared Map/Set with live iterators; tombstone-list reference model"),
 ]
